@@ -31,8 +31,17 @@ def units(tier, seed, only=None):
     # randomize flag -- is written (contracts/regalloc.c: h_allocate_register) but undecided within 15 min; thorough tier only)
     us = []
     if tier == 'thorough':
+        us.append(core.Unit('orc_compiler_allocate_register:plain', ['contracts/regalloc.c'], 'hp_allocate_register', enforce='orc_compiler_allocate_register',
+                        no_dfcc=True, defines=['REGALLOC_SRC="%s"' % GEN], unwind=130, timeout=600, object_bits=10,
+                        contract_text='result == spec_alloc(register tables) (first valid, free, caller-saved register of the window, else first valid free one); the allocated register is marked used and counted once, all others untouched; rand() unreachable without ORC_CODE=randomize; assume/assert form, no frame condition beyond the ghost register'))
+    if tier == 'thorough':
         us.append(core.Unit('orc_compiler_allocate_register', ['contracts/regalloc.c'], 'h_allocate_register', enforce='orc_compiler_allocate_register',
                             defines=['REGALLOC_SRC="%s"' % GEN], unwind=130, timeout=3000, object_bits=10, cbmc_flags=['--no-array-field-sensitivity']))
+    if tier == 'thorough':
+      us.append(core.Unit('orc_compiler_get_constant_reg', ['contracts/regalloc.c'], 'hp_get_constant_reg', enforce='orc_compiler_get_constant_reg',
+                        no_dfcc=True, nondet_static=True, defines=['REGALLOC_SRC="%s"' % GEN], unwind=130, timeout=900, object_bits=10,
+                        checks=[], cbmc_flags=['--no-standard-checks'],
+                        contract_text='result == spec_const_reg(compiler state) with every static variable nondeterministic (arbitrary history): first valid register at or above the temporaries that no live variable and no pooled constant occupies; assume/assert form'))
     # rule lookup is a pure function of (registries, target, opcode, flags): no hidden state that earlier compiles could leave
     from . import c20
     for u in c20.units(tier, seed):
